@@ -220,7 +220,7 @@ class Score(Stream):
 
 
 # ----------------------------------------------------------------------------- decision
-NAMES = ["a", "b", "ab", "ba"]
+NAMES = ["a", "b", "ab", "ba", "AB", "Ba"]     # names differing only in letter case are different names
 VALUES = ["1", "'x y'", '"a=b"', "x = y", '"p;q"', "1 2", "\"it's\"", "None", "*a b", "  3  ", "'' \"\"", "a.b", "\"{\" '}'", "1;"]
 
 
@@ -283,7 +283,7 @@ def gen_objs(rng, depth, budget, big=False):
 
 
 def gen_pathset(rng, big=False):
-    comps = ["a", "b", "ab"]
+    comps = ["a", "b", "ab", "AB", "Ab"]
     k = rng.randint(2, 4)
     ps = []
     for _ in range(k):
@@ -310,10 +310,15 @@ def arg_names(rng, targets, scopes):
                 if s and ".." not in s:
                     cand.add(s)
     cand.update(scopes)
+    # the same names in another letter case: different names (mostly matching nothing)
+    for c in sorted(cand)[:12]:
+        for v in (c.upper(), c.lower(), c.swapcase()):
+            if v != c:
+                cand.add(v)
     return sorted(cand)
 
 
-NON_MATCHING = ["c", "a.c", "bb", "aa", "b.a.b.a", "a.b.c"]
+NON_MATCHING = ["c", "a.c", "bb", "aa", "b.a.b.a", "a.b.c", "A", "B.a", "aB"]
 
 
 class Decision(Stream):
